@@ -61,8 +61,22 @@ HStepFails(r) ==
          \cup If(~sh.exc /\ \E j \in 1..Len(r.post.rng[sh.tgt]) : ~InRange(r.post.rng[sh.tgt][j]), "range", 360)
          \cup If(a.op \in CopyLike /\ ~r.exc /\ ~(r.eq.lib /\ r.eq.close), "copy.equal", TRUE)
 
+\* ---- independence probe: an object was derived from another one (constructor from an instance, from_str of an
+\* instance or of its text, with_axes, copy/deepcopy/pickle, freeze/thaw, from_basis); then the mutable one of the
+\* pair was mutated in place (setter, item assignment, *=, @=, transform() block) and the other one watched.
+\* wb/wa = bit patterns of the watched object before/after, mb/ma of the mutated one.
+IndepFails(r) ==
+    LET sh == Shape([cls |-> <<r.scls, "None", "None">>, id |-> <<1, 0, 0>>, val |-> <<<<>>, <<>>, <<>>>>], r.a) IN
+    IF ~sh.ok \/ sh.exc \/ sh.kind # "assign" THEN {F("domain", 0)}
+    ELSE If(r.rcls # sh.cls, "indep.class", sh.cls)
+         \cup If(r.same /\ sh.res = "fresh", "indep.alias", "fresh")
+         \cup If(r.a.op \in CopyLike /\ ~r.equal0, "copy.equal", TRUE)
+         \cup If(r.wb # r.wa, "indep.changed", "unchanged")
+         \cup If(r.mut # "none" /\ (r.exc \/ r.mb = r.ma), "indep.vacuous", 0)
+
 Fails(r) == CASE r.k = "step" -> StepFails(r)
               [] r.k = "hstep" -> HStepFails(r)
+              [] r.k = "indep" -> IndepFails(r)
 
 Init == i = 0
 Next == i < N /\ i' = i + 1
